@@ -34,12 +34,16 @@ SIGMA = Tuple[(int,) * NV]
 TABLE = Tuple[(bool,) * (NV * NVAL)]
 
 K_TRUE, K_FALSE, K_EQ, K_EQVV, K_EQSWAP, K_AND0, K_OR0, K_AND, K_OR = range(9)
+CHAIN = param("C17_CHAIN", quick=0, thorough=0)  # 1: only the first child of And/Or may be composite
+NARROW_ALL = param("C17_NARROW_ALL", quick=0, thorough=0)  # 1: inner levels use the narrow leaf kinds too
 BASE = [K_TRUE, K_FALSE, K_EQ, K_EQVV] + ([K_EQSWAP] if SWAP else [])
 INNER = BASE + [K_AND0, K_OR0, K_AND, K_OR]
 # kinds allowed at the deepest level (NARROW=2: only TRUE and ~a == value)
 LEAF = [K_TRUE, K_EQ] if NARROW == 2 else BASE
 if DEPTH == 1:
   INNER = LEAF
+elif NARROW_ALL:
+  INNER = LEAF + [K_AND, K_OR]
 
 
 def tree_ok(t):
@@ -53,7 +57,10 @@ def tree_ok(t):
     conds.append(0 <= b)
     if i < FIRST_LEAF:
       andor = any([k == INNER.index(K_AND), k == INNER.index(K_OR)])
-      conds.append(any([all([andor, a < ARITY]), all([andor ^ True, a < NV])]))
+      conds.append(any([all([andor, a < ARITY]),
+                        all([andor ^ True, a < (1 if NARROW_ALL else NV)])]))
+      if CHAIN and i > 0 and (i - 1) % 3 != 0:
+        conds.append(andor ^ True)   # not the first child: a leaf kind
     else:
       conds.append(a < (1 if NARROW else NV))
     if K_EQVV not in kinds:
@@ -88,8 +95,8 @@ def canon_ok(t):
     return True
   i_and, i_or = INNER.index(K_AND), INNER.index(K_OR)
   andor = any([t[0] == i_and, t[0] == i_or])
-  uses_a = all([t[0] != INNER.index(K_TRUE), t[0] != INNER.index(K_FALSE),
-                t[0] != INNER.index(K_AND0), t[0] != INNER.index(K_OR0)])
+  uses_a = all([t[0] != INNER.index(k) for k in (K_TRUE, K_FALSE, K_AND0, K_OR0)
+                if k in INNER])
   return all([
       any([uses_a, t[1] == 0]),
       any([andor, t[3] == 0]),
